@@ -93,7 +93,18 @@ package tchannel
 //@   property C19
 
 // Pending: an inbound exchange, an outbound exchange, or a relayed call in flight.
-//@ pred Pending(c *Connection) := len(c.inbound.exchanges) > 0 || len(c.outbound.exchanges) > 0 || (c.relay != nil && relayPending(c.relay) != 0)
+// (the exchange tables are monitors: "has an exchange" means "had one when the
+// table was last counted", ghost nexch, see the C04 file)
+//@ pred Pending(c *Connection) := nexch(c.inbound) > 0 || nexch(c.outbound) > 0 || (c.relay != nil && relayPending(c.relay) != 0)
+
+// C19's view of counting (TRUSTED, C19 callers only): the sweep is analysed as if
+// the number of exchanges did not change while it runs (the race between the
+// sweep's checks and new calls is listed under "not decided").
+//@ func (mexset *messageExchangeSet) count() (n int)
+//@   trusted
+//@   modifies nothing
+//@   ensures n == nexch(mexset) && n >= 0
+//@   property C19
 
 //@ func (c *Connection) hasPendingCalls() (ok bool)
 //@   requires c.inbound != nil && c.outbound != nil
